@@ -4,6 +4,9 @@ import (
 	"bytes"
 	"fmt"
 	"runtime"
+	"strconv"
+	"strings"
+	"time"
 
 	"wv/internal/wvlib"
 )
@@ -14,6 +17,87 @@ type C15Case struct {
 	PairCase
 	Ties    bool `json:"ties"`
 	Repeats int  `json:"repeats"`
+}
+
+func init() { childHandlers["C15"] = c15Child }
+
+// c15Child: `<oldDir> <newDir> <partitions> <force> <comp algo> <q>` -> "<numcpu> <fnv patch> <fnv sig> <fnv optimized>":
+// the whole pipeline (diff + sign + optimize) in a process that may be pinned to fewer CPUs.
+func c15Child(line string) string {
+	f := strings.Fields(line)
+	if len(f) != 6 {
+		return "err bad request"
+	}
+	parts, _ := strconv.Atoi(f[2])
+	q, _ := strconv.Atoi(f[5])
+	res, err := diffDirs(f[0], f[1], Comp{f[4], q}, nil)
+	if err != nil {
+		return "err " + err.Error()
+	}
+	o := optimizeReal(res.Patch, f[0], f[1], &C07Case{Force: f[3] == "1", OutComp: Comp{"none", 0}, Partitions: parts, Conc: parts}, res)
+	if o.err != "" {
+		return "err " + o.err
+	}
+	return fmt.Sprintf("%d %x %x %x", runtime.NumCPU(), wvlib.Fnv(res.Patch), wvlib.Fnv(res.Sig), wvlib.Fnv(o.patch))
+}
+
+// c15Pinned holds children pinned to 1, 2 and 3 CPUs (nil when the sandbox does not allow it).
+var c15Pinned []*wvlib.Child
+
+func c15StartPinned(env *Env) {
+	for _, set := range []string{"0", "0,1", "0-2"} {
+		ch, err := wvlib.StartChildWith([]string{"taskset", "-c", set}, "C15")
+		if err != nil {
+			env.R.Count("cpu-pinned-children-unavailable", 1)
+			continue
+		}
+		c15Pinned = append(c15Pinned, ch)
+	}
+}
+
+func c15StopPinned() {
+	for _, ch := range c15Pinned {
+		ch.Close()
+	}
+	c15Pinned = nil
+}
+
+// c15CPUCount: the same builds and parameters in processes that see 1, 2, 3 and all CPUs must give the same bytes.
+func c15CPUCount(env *Env, c *C15Case, od, nd string) {
+	if len(c15Pinned) == 0 {
+		return
+	}
+	for _, parts := range []int{2, 4, 8} {
+		force := "0"
+		if c.Ties || parts == 4 {
+			force = "1"
+		}
+		res, err := diffDirs(od, nd, c.Comp, nil)
+		if err != nil {
+			return
+		}
+		o := optimizeReal(res.Patch, od, nd, &C07Case{Force: force == "1", OutComp: Comp{"none", 0}, Partitions: parts, Conc: parts}, res)
+		if o.err != "" {
+			return
+		}
+		want := fmt.Sprintf("%x %x %x", wvlib.Fnv(res.Patch), wvlib.Fnv(res.Sig), wvlib.Fnv(o.patch))
+		for _, ch := range c15Pinned {
+			ans, crashed, diag := ch.Ask(fmt.Sprintf("%s %s %d %s %s %d", od, nd, parts, force, c.Comp.Algo, c.Comp.Quality), 120*time.Second)
+			if crashed {
+				env.R.Violate("pinned-run-crashed", diag, c)
+				continue
+			}
+			f := strings.SplitN(ans, " ", 2)
+			if len(f) != 2 || f[0] == "err" {
+				env.R.Violate("pinned-run-error", ans, c)
+				continue
+			}
+			env.R.Count("cpu-pinned-runs:numcpu="+f[0], 1)
+			if f[1] != want {
+				env.R.Violate("bytes-depend-on-cpu-count", fmt.Sprintf("partitions=%d: a process seeing %s CPU(s) produced (patch sig optimized) %s, this process (%d CPUs) %s", parts, f[0], f[1], runtime.NumCPU(), want), c)
+			}
+		}
+	}
 }
 
 func c15One(env *Env, m *wvlib.Model, c *C15Case) {
@@ -72,6 +156,7 @@ func c15One(env *Env, m *wvlib.Model, c *C15Case) {
 			env.R.Violate(cls, fmt.Sprintf("run %d: first difference at %d", rep, firstDiffBytes(o.patch, refOpt)), c)
 		}
 	}
+	c15CPUCount(env, c, od, nd)
 	env.R.Eval(c.Seed, true)
 	env.R.Count("comp:"+c.Comp.Algo, 1)
 	if c.Ties {
@@ -94,12 +179,14 @@ func firstDiffBytes(a, b []byte) int {
 
 func runC15(env *Env) {
 	R := env.R
-	R.Rule = "build pairs (incl. pairs where several old files tie as bsdiff candidates) diffed repeatedly under GOMAXPROCS {1,2,4,7,16} with full and adversarially short source reads; patch and signature bytes compared across runs; the optimizer repeated with fixed parameters; distinct by seed; every case is non-trivial (at least 4 runs compared)"
+	R.Rule = "build pairs (incl. pairs where several old files tie as bsdiff candidates) diffed repeatedly under GOMAXPROCS {1,2,4,7,16} with full and adversarially short source reads; patch and signature bytes compared across runs; the optimizer repeated with fixed parameters; the whole pipeline repeated in child processes pinned to 1, 2 and 3 CPUs (taskset) with partitions 2/4/8; distinct by seed; every case is non-trivial (at least 4 runs compared)"
 	if env.Replay != "" {
 		var c C15Case
 		replayCase(env, &c)
 		m, _ := wvlib.StartModel()
 		defer m.Close()
+		c15StartPinned(env)
+		defer c15StopPinned()
 		c15One(env, m, &c)
 		printOutcome(env)
 		return
@@ -115,6 +202,8 @@ func runC15(env *Env) {
 	for i := range cases {
 		cases[i] = &C15Case{PairCase: PairCase{Seed: rng.Next(), Opts: wvlib.PairOpts{MaxFiles: 5, SmallOnly: i%3 != 0, Symlinks: true}, Comp: comps[i%3]}, Ties: i%4 == 1, Repeats: reps}
 	}
+	c15StartPinned(env)
+	defer c15StopPinned()
 	models := startModels(env)
 	// GOMAXPROCS is process-wide: run cases one at a time
 	for i, c := range cases {
